@@ -139,6 +139,9 @@ func (ex *Exec) checkInvariants(st *State, invs []*Clause, ord int, phase string
 			ctx.side = nil
 		}
 		name := fmt.Sprintf("%s#loop%d.%s[%s]", ex.topC.Key, ord, phase, cl.Label)
+		if phase == "preserved" {
+			t = inductionStep(t)
+		}
 		ex.oblige(stq, "loop", name, cl.Props, t, cl.Text)
 	}
 }
@@ -285,4 +288,41 @@ func (ex *Exec) havocTarget(st *State, addr ssa.Value) {
 			}
 		}
 	}
+}
+
+// inductionStep: a preserved-invariant goal of the shape  forall q :: ... && q < V+1 ==> P(q)  is proved by
+// its new instance P(V): the instances q < V are the invariant assumed at the loop head (it is in the path
+// condition with bound V), and q < V+1 implies q < V or q = V in modular arithmetic. Any other shape is
+// returned unchanged.
+func inductionStep(t *Term) *Term {
+	if t.Op == "and" {
+		args := make([]*Term, len(t.Args))
+		for i, a := range t.Args {
+			args[i] = inductionStep(a)
+		}
+		return And(args...)
+	}
+	if t.Op != "forall" || len(t.Bound) != 1 {
+		return t
+	}
+	q := t.Bound[0]
+	body := t.Args[0]
+	if body.Op != "=>" {
+		return t
+	}
+	ante := body.Args[0]
+	conj := []*Term{ante}
+	if ante.Op == "and" {
+		conj = ante.Args
+	}
+	for _, c := range conj {
+		if c.Op == "bvult" && c.Args[0] == q {
+			u := c.Args[1]
+			if u.Op == "bvadd" && u.Args[1].Op == "const" && u.Args[1].Val.Cmp(bigOne) == 0 && !occurs(q, u) {
+				v := u.Args[0]
+				return Subst(body, map[*Term]*Term{q: v})
+			}
+		}
+	}
+	return t
 }
